@@ -129,7 +129,9 @@ def run(ctx, variants=(("verif", "c04"), ("verif,unsafe", "c04u"))):
     concrete = [d for d in dis if d.get("kind") == "disagreement"]
     others = [d for d in dis if d not in concrete]
     recorded = 0
-    for d in concrete[:60]:
+    for d in concrete:
+        if recorded >= 60:          # (disagreements that match a known finding do not count against the cap)
+            break
         what = "model and implementation disagree" if d["model"] != d["impl"] else "implementation output is not the reference (golden schema / Kafka wire spec) encoding"
         op = d["op"]
         sig = "%s => %s" % (" ".join(op.split(" ")[:3]), "ref-mismatch" if d["model"] == d["impl"] else "model-mismatch")
